@@ -501,7 +501,7 @@ func (g *tgen) node(ind int) (string, bool) {
 		if g.oracle {
 			return g.r.pick([]string{fmt.Sprintf(`{{ _ = G("%s") }}`, g.key()), fmt.Sprintf("{{\n%s_ = G(\"%s\")\n%s}}", g.indent(ind+1), g.key(), g.indent(ind)), "{{ }}"}), true
 		}
-		return g.r.pick([]string{"{{ x := s + t }}", "{{ _ = n }}", "{{ if b { _ = n } }}", "{{ x := 1 // c\n" + g.indent(ind) + "}}", "{{ for i := 0; i < n; i++ { _ = i } }}", "{{\n" + g.indent(ind+1) + "y := len(items)\n" + g.indent(ind+1) + "_ = y\n" + g.indent(ind) + "}}"}), true
+		return g.r.pick([]string{"{{ x := s + t }}", "{{ _ = n }}", "{{\n" + g.indent(ind+1) + "_ = n\n" + g.indent(ind) + "}}", "{{\n" + g.indent(ind+1) + "x := s + t\n" + g.indent(ind+1) + "_ = x\n" + g.indent(ind) + "}}", "{{ x := s + t; _ = x }}", "{{ if b { _ = n } }}", "{{ x := 1 // c\n" + g.indent(ind) + "}}", "{{ for i := 0; i < n; i++ { _ = i } }}", "{{\n" + g.indent(ind+1) + "y := len(items)\n" + g.indent(ind+1) + "_ = y\n" + g.indent(ind) + "}}"}), true
 	case k == 26:
 		g.note("htmlcomment")
 		if g.plain {
